@@ -92,7 +92,8 @@ class BMPWriter:
         if self.bits == 24:
             # BMP stores pixels as blue, green, red
             data = b"".join(data[i : i + 3][::-1] for i in range(0, len(data), 3))
-        self.fp.write(data)
+        # every row occupies a multiple of four bytes
+        self.fp.write(data.ljust(self.linesize, b"\x00"))
 
 
 class ImageWriter:
